@@ -271,10 +271,12 @@ func (c *Conn) OpenUpstream(ctx context.Context, sessionID string, opts ...Upstr
 	upconf.SessionID = sessionID
 
 	var resp *message.UpstreamOpenResponse
+	var generation uint64
 	err := c.send(ctx, func(ctx context.Context) error {
 		// do not hold the lock while waiting for the response: Close and reconnect need it
 		c.wireConnMu.Lock()
 		wireConn := c.wireConn
+		generation = c.state.Reconnects()
 		c.wireConnMu.Unlock()
 		r, err := wireConn.SendUpstreamOpenRequest(ctx, &message.UpstreamOpenRequest{
 			SessionID:      upconf.SessionID,
@@ -325,6 +327,7 @@ func (c *Conn) OpenUpstream(ctx context.Context, sessionID string, opts ...Upstr
 		ServerTime:       resp.ServerTime,
 		idAlias:          resp.AssignedStreamIDAlias,
 		wireConn:         c.wireConn,
+		connGeneration:   generation,
 		sequence:         newSequenceNumberGenerator(0),
 		logger:           c.logger,
 
@@ -382,7 +385,10 @@ func (c *Conn) OpenUpstream(ctx context.Context, sessionID string, opts ...Upstr
 					return
 				}
 
-				if err := u.resume(c.wireConn); err != nil {
+				c.wireConnMu.Lock()
+				wireConn, generation := c.wireConn, c.state.Reconnects()
+				c.wireConnMu.Unlock()
+				if err := u.resume(wireConn, generation); err != nil {
 					u.logger.Errorf(ctx, "failed to resume upstream: %+v", err)
 					return
 				}
@@ -424,8 +430,10 @@ func (c *Conn) OpenDownstream(ctx context.Context, filters []*message.Downstream
 	}
 	alias := c.downstreamIDGenerator.Next()
 
+	var generation uint64
 	err = c.send(ctx, func(ctx context.Context) error {
 		c.wireConnMu.Lock()
+		generation = c.state.Reconnects()
 		dpsCh, err = c.wireConn.SubscribeDownstreamChunk(ctx, alias, downconf.QoS)
 		c.wireConnMu.Unlock()
 		if err != nil {
@@ -482,6 +490,7 @@ func (c *Conn) OpenDownstream(ctx context.Context, filters []*message.Downstream
 		lastIssuedAckSequenceNumber: 0,
 		ServerTime:                  resp.ServerTime,
 		wireConn:                    c.wireConn,
+		connGeneration:              generation,
 		idAlias:                     alias,
 		dpsCh:                       dpsCh,
 		ackCompCh:                   ackCompCh,
@@ -541,7 +550,7 @@ func (c *Conn) OpenDownstream(ctx context.Context, filters []*message.Downstream
 					return
 				}
 
-				if err := down.resume(c); err != nil {
+				if err := down.resume(c, c.state.Reconnects()); err != nil {
 					down.logger.Errorf(ctx, "Failed to resume downstream: %+v", err)
 					return
 				}
